@@ -1224,12 +1224,6 @@ fn check_segment(
 }
 
 fn tantivy_case(case: u64, rng: &mut Rng, rep: &mut Report) {
-    ALLOW_IP_SPAN.with(|c| c.set(false));
-    tantivy_case_inner(case, rng, rep);
-    ALLOW_IP_SPAN.with(|c| c.set(true));
-}
-
-fn tantivy_case_inner(case: u64, rng: &mut Rng, rep: &mut Report) {
     // segments
     let big = rng.chance(if thorough() { 4 } else { 6 }, 100);
     let nseg = rng.urange(1, 4);
